@@ -161,6 +161,22 @@ def correspond(ctx, scale):
                         failures.append({'key': f'{f["name"]}:{vname}:post-exception:{type(ex).__name__}', 'what': f'{f["name"]} ({vname}): {ex!r}', 'case': dict(name=f['name'], variant=vname)})
                         variants.remove((vname, v))
                         continue
+                    # the decode helpers read the same persistent state: indices returned by the original decode identically on the restored copy
+                    if not train:
+                        ints = [t for t in ra if isinstance(t, torch.Tensor) and t.dtype in (torch.int32, torch.int64) and t.numel() and int(t.min()) >= 0]
+                        if ints:
+                            for meth in ('get_output_from_indices', 'get_codes_from_indices', 'indices_to_codes'):
+                                if not hasattr(ref_mod, meth):
+                                    continue
+                                try:
+                                    with torch.no_grad():
+                                        da, dv = getattr(ref_mod, meth)(ints[0]), getattr(v, meth)(ints[0])
+                                except Exception:
+                                    continue
+                                dist['decode_after_restore'] = dist.get('decode_after_restore', 0) + 1
+                                if not outs_equal(flat_out(da), flat_out(dv)):
+                                    failures.append({'key': f'{f["name"]}:{vname}:decode-differs:{meth}', 'what': f'{f["name"]}: after {n_pre} training steps, {vname}: {meth}(indices) differs from the original module on the same indices',
+                                                     'case': dict(name=f['name'], variant=vname, n_pre=n_pre, post_step=si)})
                     if not outs_equal(ra, rv):
                         failures.append({'key': f'{f["name"]}:{vname}:outputs-differ', 'what': f'{f["name"]}: after {n_pre} training steps, {vname}: outputs/indices differ from the original at post step {si} (train={train})',
                                          'case': dict(name=f['name'], variant=vname, n_pre=n_pre, post_step=si)})
